@@ -7,7 +7,8 @@ From Gws Require Import Skel.IR Skel.Checker.
 Import ListNotations.
 
 (* observable actions, as small numbers: 1 data/control frame written, 2 Close frame written, 3 transport closed,
-   4 deadline set, 10 OnOpen, 11 OnClose, 12 OnPing, 13 OnPong, 14 OnMessage, 5 handshake bytes written *)
+   4 deadline set, 10 OnOpen, 11 OnClose, 12 OnPing, 13 OnPong, 14 OnMessage, 5 handshake bytes written;
+   in an observed sequence 0 = a Write that failed before its kind could be seen (matches any AWire) *)
 Definition obs_code (a : act) : option nat :=
   match a with
   | AWire KData => Some 1 | AWire KClose => Some 2 | AWire KAny => Some 1 | AWire KHandshake => Some 5
@@ -21,7 +22,9 @@ Variable obs : list nat.
 (* state: Some i = the first i observed actions have been matched; None = this path does not match *)
 Definition astep (m : option nat) (a : act) : option nat :=
   match m, obs_code a with
-  | Some i, Some c => match nth_error obs i with Some c' => if Nat.eqb c c' then Some (S i) else None | None => None end
+  | Some i, Some c => match nth_error obs i with
+                      | Some c' => if Nat.eqb c c' || (Nat.eqb c' 0 && (Nat.eqb c 1 || Nat.eqb c 2 || Nat.eqb c 5)) then Some (S i) else None
+                      | None => None end
   | m, None => m
   | None, _ => None
   end.
